@@ -35,7 +35,7 @@ from __future__ import annotations
 
 import itertools
 import types
-from collections.abc import Collection, Hashable, Iterable, Iterator, MutableSet, Sequence
+from collections.abc import Hashable, Iterable, Iterator, MutableSet, Sequence
 from collections.abc import Set as AbstractSet
 from typing import Any, TypeVar, cast, get_args, overload
 
@@ -86,7 +86,8 @@ class _AbstractOrderedSet(AbstractSet[T], Sequence[T]):  # noqa: PLW1641
         # NB: Dictionaries are ordered in Python 3.6+. While this was not formalized
         # until Python 3.7, Python 3.6 uses this behavior; Pants requires CPython 3.6+
         # to run, so this assumption is safe for us to rely on.
-        self._items: dict[T, None] = dict.fromkeys(iterable or ())
+        # An iterable can be falsy and still yield elements (e.g., an array holding 0).
+        self._items: dict[T, None] = dict.fromkeys(() if iterable is None else iterable)
 
     def __len__(self) -> int:
         return len(self._items)
@@ -188,8 +189,9 @@ class _AbstractOrderedSet(AbstractSet[T], Sequence[T]):  # noqa: PLW1641
         Returns:
             True, if this is a subset of other.
         """
-        if not isinstance(other, Collection):
-            # One-shot iterables can only be consumed once
+        if not isinstance(other, AbstractSet):
+            # Only the elements of the other iterable count: for a str or bytes `in`
+            # is a substring test, and one-shot iterables can only be consumed once.
             other = tuple(other)
         try:
             # Fast check for obvious cases
